@@ -186,6 +186,74 @@ func isValidTimestampFn(f *ssa.Function) bool {
 }
 
 // R08: validation guards dominate the effect they protect.
+// insSite is a cell insertion as the rules judge it: the call whose position must lie behind the
+// guards, the column (or its cell list) written and the cell inserted.  When the insertion is
+// wrapped (`storeCell(col, cell)` around the writer), the site is every call of the wrapper in
+// scope, with the wrapper's parameters replaced by that call's arguments.
+type insSite struct {
+	at        *ssa.Call
+	col, cell ssa.Value
+}
+
+func paramRootOf(v ssa.Value) *ssa.Parameter {
+	for i := 0; i < 6; i++ {
+		v = core.Resolve(v)
+		switch x := v.(type) {
+		case *ssa.Parameter:
+			return x
+		case *ssa.UnOp:
+			v = x.X
+		case *ssa.FieldAddr:
+			v = x.X
+		default:
+			return nil
+		}
+	}
+	return nil
+}
+
+func liftInsertions(scope []*ssa.Function, sites []insSite, depth int) []insSite {
+	var out []insSite
+	for _, s := range sites {
+		w := s.at.Parent()
+		pc := paramRootOf(s.col)
+		if pc == nil || depth > 2 {
+			out = append(out, s)
+			continue
+		}
+		idx := func(p *ssa.Parameter) int {
+			for i, q := range w.Params {
+				if q == p {
+					return i
+				}
+			}
+			return -1
+		}
+		var lifted []insSite
+		for _, f := range scope {
+			for _, b := range f.Blocks {
+				for _, in := range b.Instrs {
+					call, ok := in.(*ssa.Call)
+					if !ok || call.Call.StaticCallee() != w || len(call.Call.Args) != len(w.Params) {
+						continue
+					}
+					ns := insSite{at: call, col: call.Call.Args[idx(pc)], cell: s.cell}
+					if pp, isP := core.Resolve(s.cell).(*ssa.Parameter); isP && idx(pp) >= 0 {
+						ns.cell = call.Call.Args[idx(pp)]
+					}
+					lifted = append(lifted, ns)
+				}
+			}
+		}
+		if len(lifted) == 0 {
+			out = append(out, s)
+			continue
+		}
+		out = append(out, liftInsertions(scope, lifted, depth+1)...)
+	}
+	return out
+}
+
 func R08(group string) Rule {
 	return Rule{Name: "R08", Run: func(c *core.Ctx) {
 		P := c.P
@@ -208,18 +276,23 @@ func R08(group string) Rule {
 			if len(ins) == 0 {
 				c.Unknown("R08", "applyMutations/SetCell", fn.Pos(), "no appendOrReplaceCell call reachable from applyMutations")
 			}
-			for i, e := range ins {
+			var raw []insSite
+			for _, e := range ins {
+				raw = append(raw, insSite{at: e, col: e.Call.Args[0], cell: e.Call.Args[1]})
+			}
+			for i, site := range liftInsertions(scope, raw, 0) {
+				e := site.at
 				sfx := ""
 				if i > 0 {
 					sfx = fmt.Sprintf("#%d", i+1)
 				}
-				name := familyNameFeeding(e.Call.Args[0])
+				name := familyNameFeeding(site.col)
 				c.Check(famGuard(e, name), "R08", "applyMutations/SetCell/family-known"+sfx, e.Pos(),
 					"cell insertion is dominated by the ok-edge of the lookup of the same family name in the table's live family map",
 					"a SetCell reaches the cell insertion without the family having been found in the table's live family map: writes to unknown or dropped families are stored")
 				// timestamp
 				okTs := false
-				if cell, ok := core.Resolve(e.Call.Args[1]).(*ssa.Alloc); ok {
+				if cell, ok := core.Resolve(site.cell).(*ssa.Alloc); ok {
 					for _, r := range core.Referrers(cell) {
 						fa, ok := r.(*ssa.FieldAddr)
 						if !ok {
@@ -370,9 +443,10 @@ func R08(group string) Rule {
 		case "ReadModifyWriteRow":
 			fn := P.MustFunc(core.PkgBttest, rpcRMW)
 			c.Fn(rpcRMW)
-			ins := scopeCallsTo(P.Scope(fn, func(f *ssa.Function) bool {
+			insScope := P.Scope(fn, func(f *ssa.Function) bool {
 				return core.PkgPathOf(f) != core.PkgBttest || core.FuncName(f) == "appendOrReplaceCell" || core.FuncName(f) == "applyMutations"
-			}), core.PkgBttest, "appendOrReplaceCell")
+			})
+			ins := scopeCallsTo(insScope, core.PkgBttest, "appendOrReplaceCell")
 			if len(ins) == 0 {
 				// the anchor helper still exists but this RPC no longer goes through it: the new cell is put
 				// into the column by other means (a plain prepend / append), which is exactly what the helper
@@ -384,12 +458,17 @@ func R08(group string) Rule {
 				}
 			}
 			rmwWithin := setOf(P.Scope(fn, nil))
-			for i, e := range ins {
+			var rawIns []insSite
+			for _, e := range ins {
+				rawIns = append(rawIns, insSite{at: e, col: e.Call.Args[0], cell: e.Call.Args[1]})
+			}
+			for i, site := range liftInsertions(insScope, rawIns, 0) {
+				e := site.at
 				sfx := ""
 				if i > 0 {
 					sfx = fmt.Sprintf("#%d", i+1)
 				}
-				name := familyNameFeeding(e.Call.Args[0])
+				name := familyNameFeeding(site.col)
 				ok := name != nil && P.InAllContexts(e, []ssa.Value{name}, rmwWithin, func(at ssa.Instruction, vals []ssa.Value) bool {
 					return vals[0] != nil && factLookupOk(at.Block(), func(lk *ssa.Lookup) bool {
 						return isLiveFamiliesAnywhere(P, lk.X) && sameFieldLoad(lk.Index, vals[0])
